@@ -252,10 +252,14 @@ def pi : P String := do
   -- hypothesis of policyIteration_chain that is checkable on the output: the greedy matrix of the returned Q is a distribution
   let coh := checkValidPi m (greedyPolicy m.S m.A iQ).get
   let v := { v with tag := v.tag ++ (if coh then "" else " incoherent_greedy") }
-  let v := if useTol && coh && mustConverge m h tol then
-      -- policyIteration_chain + greedyRow_near_max: τ = 2·tieSlack B, B = largest |Q| entry
+  let v := if useTol && mustConverge m h tol then
+      -- policyIteration_chain + greedyRow_near_max: τ = 2·tieSlack B, B = largest |Q| entry.  The clause is the property's whatever the
+      -- greedy matrix looks like; when the *as-found* tie scan (the model's) does not yield a distribution on the returned Q the failure
+      -- is explained by that scan and carries its own kind (finding C01-3), otherwise it is unexplained.
       let eps := tol + 2 * tieSlack (qmaxOf m iQ)
-      v.failIf (!(checkResidual m iV.get (m.γ * eps + sl))) s!"{comp} residual_exceeds_bound res={ratStr (residual m iV.get)} bound={ratStr (m.γ * eps)}"
+      v.failIf (!(checkResidual m iV.get (m.γ * eps + sl)))
+        (if coh then s!"{comp} residual_exceeds_bound res={ratStr (residual m iV.get)} bound={ratStr (m.γ * eps)}"
+         else s!"{comp} greedy_row_not_distribution res={ratStr (residual m iV.get)} bound={ratStr (m.γ * eps)}")
     else v
   if !tr.ok then return (v.diffIf true s!"{comp} model_out_of_fuel").render else
   let v := v.diffIf (!tr.capped && tr.wellCond && !(eqMat c m.S m.A tr.st.qfun iQ)) s!"{comp} q rounds={tr.st.rounds}"
@@ -318,8 +322,57 @@ def xrep : P String := do
   let v := v.failIf bad s!"{comp} {what}_differs"
   return v.render
 
+/-- conditioning of a greedy row for the tie tests themselves: no pair sits within a hair of either threshold of `checkEqualGeneral` -/
+def tieWellCond (A : Nat) (q : Nat → Rat) : Bool :=
+  allLt A (fun a => allLt A (fun b =>
+    let d := absR (q a - q b)
+    let rel := minR (absR (q a)) (absR (q b)) * AITB.Gen.equalToleranceGeneral
+    decide (d = 0) ||
+      (decide (AITB.Gen.equalToleranceSmall / 1000000 < absR (d - AITB.Gen.equalToleranceSmall)) &&
+       decide (rel / 1000 < absR (d - rel) || d ≤ AITB.Gen.equalToleranceSmall / 2))))
+
+/-- `gp S A Q[S][A] | M[S][A]`: `MDP::QGreedyPolicy(Q).getPolicy()` -/
+def gp : P String := do
+  let S ← P.nat; let A ← P.nat; let q ← matP S A; P.bar
+  let iM ← matP S A; P.eof
+  let comp := "QGreedyPolicy"
+  let mM := greedyPolicy S A q
+  let wc := allLt S (fun s => tieWellCond A (q.get s))
+  let one : Rat := 1
+  let v : Verdict := { tag := (if A ≤ 1 then "trivial " else "") ++ "gp" ++ (if wc then "" else " illcond") }
+  let v := v.diffIf (wc && !(allLt S (fun s => allLt A (fun a => closeQ (1 / 1000000000) (mM.get s a) (iM.get s a))))) s!"{comp} table"
+  -- property-side clauses on the implementation's own table: what PolicyEvaluation needs from `policy.getPolicy()`
+  let rowSum := fun s => sumTo A (iM.get s)
+  let v := v.failIf (!(allLt S (fun s => allLt A (fun a => decide (0 ≤ iM.get s a))))) s!"{comp} negative_entry"
+  let v := v.failIf (!(allLt S (fun s => decide (rowSum s ≤ one + 1 / 1000000000)))) s!"{comp} row_sum_above_one"
+  let v := v.failIf (!(allLt S (fun s => decide (one - 1 / 1000000000 ≤ rowSum s)))) s!"{comp} row_sum_below_one"
+  let v := v.failIf (!(allLt S (fun s =>
+      let B := maxTo (A - 1) (fun a => absR (q.get s a))
+      let mx := maxTo (A - 1) (q.get s)
+      allLt A (fun a => decide (iM.get s a = 0) || decide (mx - 2 * tieSlack B ≤ q.get s a))))) s!"{comp} weight_far_below_max"
+  return v.render
+
+/-- `settol <class> threw tolAfter tolBefore`: a negative tolerance is rejected and leaves the object unchanged -/
+def settol : P String := do
+  let cls ← P.tok; let threw ← P.bool; let after ← P.q; let before ← P.q; P.eof
+  let v : Verdict := { tag := "settol" }
+  let v := v.failIf (!threw) s!"{cls} negative_tolerance_accepted"
+  let v := v.failIf (after != before) s!"{cls} tolerance_changed_by_rejected_call"
+  return v.render
+
+def componentOf (op : String) : String :=
+  match op with
+  | "vi" => "ValueIteration" | "pe" => "PolicyEvaluation" | "pi" => "PolicyIteration" | "lp" => "LinearProgramming"
+  | "gp" => "QGreedyPolicy" | "agree" => "Agreement" | _ => "Representations"
+
 def handle (toks : List String) : String :=
+  -- a NaN or an infinity anywhere in an output is never "the optimal value function"
+  let outs := (toks.dropWhile (· != "|"))
+  if outs.any (fun t => t == "nan" || t == "inf" || t == "-inf") then s!"fail {componentOf (toks.headD "")} not_finite" else
   let r := match toks with
+    | "gp" :: rest => P.run gp rest
+    | "settol" :: rest => P.run settol rest
+    | "getter" :: _ :: cls :: _ => some s!"fail {cls} getter_mismatch"
     | "vi" :: rest => P.run vi rest
     | "pe" :: rest => P.run pe rest
     | "pi" :: rest => P.run pi rest
